@@ -24,7 +24,7 @@ func init() {
 			"pointer-receiver methods on non-pointer struct values are not asserted (outside T's method set)",
 			"only exact-case names and names that do not exist; methods with arguments or several results are not queried; members hold strings and ints only",
 		},
-		quick: 96, thorough: 3200, minQuick: 48, minThorough: 1500,
+		quick: 160, thorough: 3200, minQuick: 48, minThorough: 1500,
 	}})
 }
 
